@@ -37,6 +37,12 @@ Notation tverify := (tverify sigverify).
 Definition same_user (s s1 : state) : Prop :=
   known s1 = known s /\ chain s1 = chain s /\ mdchain s1 = mdchain s /\ perms s1 = perms s.
 
+Lemma dedup_by_In {A} (eqb : A -> A -> bool) : forall l x, In x (dedup_by eqb l) -> In x l.
+Proof.
+  induction l as [|y l IH]; simpl; [auto|]. intros x [H|H]; [auto|].
+  apply filter_In in H as [H _]. auto.
+Qed.
+
 Lemma get_tree_aset_same k tr ps : get_tree k (aset k tr ps) = tr.
 Proof. unfold get_tree. rewrite alookup_aset_same. reflexivity. Qed.
 
@@ -65,9 +71,11 @@ Lemma substantiate_spec s pk mds toks atts fail s1 r :
 Proof.
   unfold M17_consent.substantiate, same_user.
   destruct (gather_list pk (get_tree pk (pseus s)) toks true) as [[tr1 c1]|e] eqn:G.
-  2:{ intros E. inversion E; subst.
+  2:{ intros E. inversion E; subst. simpl.
       split; [auto|]. split; [apply prefix_refl|]. split; [apply prefix_refl|]. split; [auto|]. split; [auto|].
-      split; [auto|]. split; [intros P S; exists P; exact S|]. split; [intros x Hx; left; exact Hx|discriminate]. }
+      split; [intros k N; apply get_tree_aset_other; auto|].
+      split; [intros P S; exists P; rewrite get_tree_aset_same; exact S|].
+      split; [intros x Hx; left; exact Hx|discriminate]. }
   assert (TS : forall P, Sound pk P (get_tree pk (pseus s)) ->
                  exists P', Sound pk P' (get_tree pk (aset pk tr1 (pseus s)))).
   { intros P S. rewrite get_tree_aset_same. eapply gather_list_sound; eauto. }
@@ -253,7 +261,8 @@ Proof.
         Forall (fun aa => att_verify (fst aa) (snd aa) = true) atts).
     { intros o Ho. destruct (O o Ho) as [m [s' [A [B [C [D F]]]]]]. exists m, s'.
       split; [assumption|]. split.
-      { rewrite Dm. unfold credentials_of in B. apply in_map_iff in B as [[k m'] [E1 E2]]. simpl in E1. subst m'.
+      { rewrite Dm. unfold credentials_of in B. apply dedup_by_In in B.
+        apply in_map_iff in B as [[k m'] [E1 E2]]. simpl in E1. subst m'.
         apply filter_In in E2 as [E2 E3]. simpl in E3. apply bytes_eqb_eq in E3. subst k. assumption. }
       rewrite Ps. fold tr. split; [assumption|]. split; [congruence|]. split; [eapply prefix_trans; eauto|]. auto. }
     destruct x3 as [e3|]; intros E; inversion E; subst s2 outs x; clear E.
